@@ -14,7 +14,7 @@ def convert(svg_text: str, **opts) -> str:
     return SVG.fromstring(svg_text).topicosvg(**opts).tostring()
 
 
-def compare(src: str, out: str, r: Result, what=("stack",), rgba_tol=1.5 / 255, strokes=True, gradients=True, min_trusted=20, label="", convert_fn=None):
+def compare(src: str, out: str, r: Result, what=("stack",), rgba_tol=1.5 / 255, strokes=True, gradients=True, min_trusted=20, label="", convert_fn=None, attribute=True):
     """Adds violations to r; returns dict with statistics or None when the oracle cannot judge.
 
     Engine attribution: when a mismatch is found and the polygonal twin of the source (all curves
@@ -22,7 +22,7 @@ def compare(src: str, out: str, r: Result, what=("stack",), rgba_tol=1.5 / 255, 
     skia-pathops' handling of curved input (known finding ENGINE): r.excluded is set and no violation
     is recorded.  Wrapper-logic errors (transforms, rules, clips, cascade) show on the twin as well."""
     stats = _compare(src, out, r, what, rgba_tol, strokes, gradients, min_trusted, label)
-    if r.violations and all(c in ("stack-differs", "colour-differs") for c, _ in r.violations):
+    if attribute and r.violations and all(c in ("stack-differs", "colour-differs") for c, _ in r.violations):
         try:
             from vlib.refsvg import polygonal
 
